@@ -1,0 +1,41 @@
+//! Verification hooks, only compiled with `--cfg minicbor_verif`.
+//!
+//! A step counter that is bumped by every primitive input access of the
+//! [`Decoder`](crate::Decoder). An external monitor can read it to measure
+//! the work done by a decoding call and can set a limit above which the
+//! next step panics, which turns "does not terminate" into an observable
+//! event. The counter is process-global and meant to be used from a single
+//! thread at a time.
+
+use core::sync::atomic::{AtomicU64, Ordering};
+
+/// Number of primitive input accesses since the last reset.
+pub static STEPS: AtomicU64 = AtomicU64::new(0);
+
+/// If non-zero, exceeding this many steps panics.
+pub static LIMIT: AtomicU64 = AtomicU64::new(0);
+
+/// Message prefix of the panic raised when `LIMIT` is exceeded.
+pub const LIMIT_MSG: &str = "minicbor_verif: step limit exceeded";
+
+/// Reset the step counter and set a new limit (0 = unlimited).
+pub fn reset(limit: u64) {
+    STEPS.store(0, Ordering::Relaxed);
+    LIMIT.store(limit, Ordering::Relaxed)
+}
+
+/// The current step count.
+pub fn steps() -> u64 {
+    STEPS.load(Ordering::Relaxed)
+}
+
+#[inline]
+pub(crate) fn step() {
+    let n = STEPS.load(Ordering::Relaxed) + 1;
+    STEPS.store(n, Ordering::Relaxed);
+    let l = LIMIT.load(Ordering::Relaxed);
+    if l != 0 && n > l {
+        LIMIT.store(0, Ordering::Relaxed);
+        panic!("{}", LIMIT_MSG)
+    }
+}
